@@ -139,7 +139,10 @@ def run_cfg(chk, facts, cfg):
         return
 
     def qstate(n):
-        return ('adt', 'quantile::Stats', 0, (n,))
+        v = facts.struct_state('quantile::Stats', [n])
+        if v is None:
+            raise Unsupported('quantile::Stats does not consist of the population count')
+        return v
 
     def two(lo, hi):
         return im.value('A', 'two') if False else ('adt', im.path, im.kinds['two'][0], tuple(x for _, x in sorted([(im.kinds['two'][1], lo), (im.kinds['two'][2], hi)])))
